@@ -20,6 +20,10 @@ pub struct ScriptCase {
     pub pad: u16,
     /// schedule-point delays of the second run
     pub sched: Vec<(u8, u8)>,
+    /// the history before `ucinewgame` ends with `go depth 1 movetime 60` (its timer thread is still asleep
+    /// when the script starts) and the first search of the script is made deep enough (depth 6) to outlast it
+    #[serde(default)]
+    pub timed_history: bool,
 }
 
 pub struct C19;
@@ -70,7 +74,7 @@ impl Prop for C19 {
     }
 
     fn rule(&self) -> String {
-        "Cases: a script of 1-4 (`position fen … moves …`, `go depth 1-5`, `wait`) steps on generated positions, run three ways against the real binary: (A) fresh process; (B) fresh process under a generated perturbation - `nice -n 15`, ASLR disabled (`setarch -R`), 0-4 kB of environment padding (moves stack and heap layout), pinned to one CPU (`taskset`), schedule-point delays 0/20/100 ms, while up to 7 sibling shards load the machine; (C) a process that first searches a generated unrelated history, then `ucinewgame`, then the script. Oracle: the three transcripts (every `info` line and `bestmove`) are byte-identical. evaluations = script runs compared (3 per case). Non-trivial script: contains a search of depth >= 3 on a root with at least two legal moves; distinct by script.".into()
+        "Cases: a script of 1-4 (`position fen … moves …`, `go depth 1-5`, `wait`) steps on generated positions, run three ways against the real binary: (A) fresh process; (B) fresh process under a generated perturbation - `nice -n 15`, ASLR disabled (`setarch -R`), 0-4 kB of environment padding (moves stack and heap layout), pinned to one CPU (`taskset`), schedule-point delays 0/20/100 ms, while up to 7 sibling shards load the machine; (C) a process that first searches a generated unrelated history (one time in five ending with `go depth 1 movetime 60`, whose timer is still pending while the script's first search, then raised to depth 6, runs), then `ucinewgame`, then the script. Oracle: the three transcripts (every `info` line and `bestmove`) are byte-identical. evaluations = script runs compared (3 per case). Non-trivial script: contains a search of depth >= 3 on a root with at least two legal moves; distinct by script.".into()
     }
 
     fn assumptions(&self) -> Vec<String> {
@@ -99,16 +103,19 @@ impl Prop for C19 {
 
     fn strategy(&self, _ctx: &Ctx) -> BoxedStrategy<ScriptCase> {
         let search = || (walk_strategy(false), prop_oneof![1 => 1u8..3, 3 => 3u8..5, 1 => Just(5u8)]);
-        (vec(search(), 1..5), vec(search(), 1..4), 0u8..16, 0u16..4096, vec((0u8..9, 0u8..3), 0..4))
-            .prop_map(|(searches, history, perturb, pad, sched)| ScriptCase { searches, history, perturb, pad, sched })
+        (vec(search(), 1..5), vec(search(), 1..4), 0u8..16, 0u16..4096, vec((0u8..9, 0u8..3), 0..4), prop::bool::weighted(0.2))
+            .prop_map(|(searches, history, perturb, pad, sched, timed_history)| ScriptCase { searches, history, perturb, pad, sched, timed_history })
             .boxed()
     }
 
     fn check(&self, _ctx: &Ctx, case: &ScriptCase, ev: &mut Ev) -> Result<(), Fail> {
-        let Some((script, nontrivial)) = script_lines(&case.searches) else {
+        let Some((mut script, nontrivial)) = script_lines(&case.searches) else {
             ev.skip("construction did not yield a sane position");
             return Ok(());
         };
+        if case.timed_history {
+            script[0].1 = "go depth 6".to_string();
+        }
         let history = script_lines(&case.history).map(|x| x.0).unwrap_or_default();
         // A: plain
         let mut a = Session::start(&[]).map_err(|e| Fail::new("harness", e))?;
@@ -162,6 +169,17 @@ impl Prop for C19 {
         if transcript(&mut c, &history).is_err() {
             ev.inconclusive("history run did not finish within the time limit");
             return Ok(());
+        }
+        if case.timed_history {
+            c.send("position startpos");
+            c.send("go depth 1 movetime 60");
+            c.send("wait");
+            c.send("isready");
+            if c.read_until(|l| uci::readyok(l), 30_000).is_none() {
+                ev.inconclusive("history run did not finish within the time limit");
+                return Ok(());
+            }
+            ev.class("histories_ending_with_a_pending_timer");
         }
         c.send("ucinewgame");
         let tc = match transcript(&mut c, &script) {
